@@ -6,7 +6,15 @@ position of b coincides with which wire position of a, joint register <= 4 wires
 incl. 0, pi, 2pi, 4pi), records qp.is_commuting(a, b) and qp.is_commuting(b, a) (answer | exception class), and TLC
 (Trace_Commute.tla) recomputes both operators exactly in Z[zeta_16][1/2] from the reference table, decides
 A.B = B.A exactly and validates the recorded answers: "True" => commute; two Pauli words: answer <=> commute (and the
-textbook criterion PCommutes must agree with the matrices)."""
+textbook criterion PCommutes must agree with the matrices).
+
+Histories (the commutation DAG call path): is_commuting is also observed the way its main client uses it -- many calls
+inside ONE qp.transforms.commutation_dag construction.  The driver builds multi-step circuits in which the same gate
+types recur on the same wires with different parameters (first degenerate / repeated angles, where rotations simplify
+and commute, later generic angles, where they do not), builds the DAG, and reads back is_commuting's answers from it:
+nodes i < j with j NOT a successor of i  <=>  is_commuting(op_i, op_j) answered True while node j was inserted; a direct
+edge i -> j  <=>  it answered False.  Each such answer is a record of the same trace format (operands re-encoded on the
+pair's joint register) and is validated by the same Trace_Commute verdict: True => the exact matrices commute."""
 import itertools
 import random
 
@@ -205,6 +213,143 @@ def _call(a, b):
     return "E:non-boolean:" + type(r).__name__
 
 
+# ------------------------------------------------------------------------------------------------ DAG histories
+NW_DAG = 3
+
+
+def _dag_params(rng, sh, early, prev):
+    """lattice parameters for one circuit step.  early steps favour degenerate angle vectors (all but one angle 0, where
+    Rot / U3 / CRot simplify to a single-axis rotation) and copies of earlier parameters (the same gate twice commutes
+    with itself); late steps favour generic angles."""
+    if sh.npar == 0:
+        return []
+    same = [q for q in prev if len(q) == sh.npar]
+    r = rng.random()
+    if early:
+        if r < 0.4:
+            p = [0] * sh.npar
+            p[rng.randrange(sh.npar)] = rng.choice(SPECIAL + GENERIC)
+            return p
+        if r < 0.7 and same:
+            return list(rng.choice(same))
+        return _params(rng, sh)
+    if r < 0.6:
+        return [rng.choice(GENERIC) for _ in range(sh.npar)]
+    if r < 0.75 and same:
+        return list(rng.choice(same))
+    return _params(rng, sh)
+
+
+ROT_SHAPES = ("Rot", "U2", "U3", "CRot", "ctrl(Rot,[1])", "ctrl(U2,[1])", "adjoint(Rot)")
+
+
+def dag_circuit(rng, S, pool_par, pool_fix, pool_rot):
+    """a circuit over <= NW_DAG wires made of 2-3 'slots' (operand shape + wire placement) that recur with fresh
+    parameters: [(shape index, wires, params)]"""
+    k = rng.choice((2, 2, 3))
+    slots = []
+    while len(slots) < k:
+        if slots and len(slots) == 1 and rng.random() < 0.25:
+            slots.append(slots[0])                      # the very same gate type on the same wires
+            continue
+        # the answers that depend on the parameters come from the multi-angle rotations (simplification + the special
+        # case for two non-simplified rotations): half of the parametrised slots are drawn from them
+        r = rng.random()
+        i = rng.choice(pool_rot) if r < 0.4 else rng.choice(pool_par) if (not slots or r < 0.8) else rng.choice(pool_fix)
+        w = rng.sample(range(1, NW_DAG + 1), S[i].arity)
+        if slots and not (set(w) & set(slots[0][1])):
+            continue
+        slots.append((i, w))
+    L = rng.choice((4, 5, 5, 6))
+    tail = [0, 1]
+    rng.shuffle(tail)
+    seq = [0, 1] + [rng.randrange(k) for _ in range(L - 4)] + tail
+    circ, prev = [], []
+    for pos_, sl in enumerate(seq):
+        i, w = slots[sl]
+        p = _dag_params(rng, S[i], pos_ < 2 or (pos_ < L - 2 and rng.random() < 0.5), prev)
+        prev.append(p)
+        circ.append((i, list(w), p))
+    return circ
+
+
+def _build_dag(ops):
+    tape = qp.tape.QuantumScript(ops, [])
+    out = qp.transforms.commutation_dag(tape)
+    if not hasattr(out, "get_node"):
+        batch, fn = out
+        out = fn(batch)
+    return out
+
+
+def dag_records(rng, S, ncirc):
+    """-> (cases, meta, stats): one record per overlapping node pair i < j of every circuit whose DAG answers the pair"""
+    pool_par = [i for i, sh in enumerate(S) if sh.family == "gate" and sh.npar >= 1 and sh.arity <= NW_DAG
+                and not sh.name.startswith("PauliRot") and "GlobalPhase" not in sh.name]
+    pool_fix = [i for i, sh in enumerate(S) if sh.family == "gate" and sh.npar == 0 and sh.arity <= NW_DAG
+                and "GlobalPhase" not in sh.name]
+    pool_rot = [i for i in pool_par if S[i].name in ROT_SHAPES]
+    cases, meta, seen = [], [], set()
+    st = {"circuits": 0, "circuits_raised": {}, "pairs_unordered": 0, "pairs_direct_edge": 0, "pairs_transitive_only": 0,
+          "pairs_duplicate": 0}
+    attempts = 0
+    while st["circuits"] < ncirc and attempts < 4 * ncirc:
+        attempts += 1
+        circ = dag_circuit(rng, S, pool_par, pool_fix, pool_rot)
+        labels = rng.choice(LABELSETS)
+        ops = [S[i].make(w, p, labels)[0] for (i, w, p) in circ]
+        try:
+            dag = _build_dag(ops)
+            if dag.size != len(ops):
+                raise lib.MachineryError(f"commutation DAG has {dag.size} nodes for {len(ops)} operations")
+            succ = [set(dag.successors(x)) for x in range(len(ops))]
+            direct = [set(dag.direct_successors(x)) for x in range(len(ops))]
+        except lib.MachineryError:
+            raise
+        except Exception as e:  # noqa: BLE001 - is_commuting raised inside the construction: no answers to validate
+            st["circuits_raised"][type(e).__name__] = st["circuits_raised"].get(type(e).__name__, 0) + 1
+            continue
+        st["circuits"] += 1
+        cid = st["circuits"]
+        text = [str(o) for o in ops]
+        for x in range(len(circ)):
+            for y in range(x + 1, len(circ)):
+                (ia, wa_, pa), (ib, wb_, pb) = circ[x], circ[y]
+                if not set(wa_) & set(wb_):
+                    continue
+                if y not in succ[x]:
+                    ans = "T"
+                    st["pairs_unordered"] += 1
+                elif y in direct[x]:
+                    ans = "F"
+                    st["pairs_direct_edge"] += 1
+                else:
+                    st["pairs_transitive_only"] += 1     # is_commuting was not asked about this pair
+                    continue
+                # re-encode the two operands on the pair's joint register: a on 1..p, b's other wires numbered after
+                cmap = {w: t + 1 for t, w in enumerate(wa_)}
+                for w in wb_:
+                    cmap.setdefault(w, len(cmap) + 1)
+                lab2 = [None] * len(cmap)
+                for w, t in cmap.items():
+                    lab2[t - 1] = labels[w - 1]
+                wa, wb = [cmap[w] for w in wa_], [cmap[w] for w in wb_]
+                opa, ja = S[ia].make(wa, pa, lab2)
+                opb, jb = S[ib].make(wb, pb, lab2)
+                sig = (ia, ib, tuple(wb), tuple(pa), tuple(pb), ans)
+                if sig in seen:
+                    st["pairs_duplicate"] += 1
+                    continue
+                seen.add(sig)
+                cases.append({"n": len(cmap), "a": ja, "b": jb, "ab": ans, "ba": _call(opb, opa)})
+                meta.append({"a": S[ia].name, "b": S[ib].name, "pa": pa, "pb": pb, "wa": wa, "wb": wb,
+                             "ops": [str(opa), str(opb)], "src": "dag", "circuit": text, "nodes": [x, y], "cid": cid,
+                             "slot": [ia, tuple(wa_), ib, tuple(wb_)]})
+    if st["circuits"] < ncirc // 2:
+        raise lib.MachineryError(f"commutation_dag raised on most generated circuits: {st}")
+    return cases, meta, st
+
+
 LABELSETS = [[0, 1, 2, 3], [3, 1, 0, 2], ["a", "b", "c", "d"], [7, "q", 2, "aux"]]
 
 
@@ -243,6 +388,11 @@ def run(tier, seed):
             ab, ba = _call(opa, opb), _call(opb, opa)
             cases.append({"n": n, "a": ja, "b": jb, "ab": ab, "ba": ba})
             meta.append({"a": a.name, "b": b.name, "pa": pa, "pb": pb, "wa": wa, "wb": pat, "ops": [str(opa), str(opb)]})
+    # histories: answers read back from commutation DAG constructions over circuits with recurring gate types / wires
+    npairs = len(cases)
+    dcases, dmeta, dstat = dag_records(random.Random(900 + seed), S, 100 if tier == "quick" else 1500)
+    cases += dcases
+    meta += dmeta
     # negative controls: flip a recorded "F" of a non-commuting pair to "T" / a recorded Pauli-word "T" to "F"
     nreal = len(cases)
     neg = []
@@ -290,6 +440,16 @@ def run(tier, seed):
             n_cons += clause == "ok-conservative"
             if not clause.startswith("ok"):
                 x, y = (m["a"], m["b"]) if direction == "ab" else (m["b"], m["a"])
+                if m.get("src") == "dag" and direction == "ab":
+                    viol.append(Violation(
+                        key=f"{clause}:dag:{m['a']}~{m['b']}:wb={m['wb']}",
+                        detail=f"commutation_dag of {m['circuit']} leaves nodes {m['nodes'][0]} and {m['nodes'][1]} "
+                               f"{'unordered (is_commuting reported True' if ans == 'T' else 'ordered by an edge (reported False'} "
+                               f"while inserting node {m['nodes'][1]}): {m['ops'][0]} , {m['ops'][1]} on the pair's joint register; "
+                               f"exact matrices {'commute' if commute else 'do NOT commute'} (lattice params a={m['pa']} "
+                               f"b={m['pb']}, angle = k*pi/4)",
+                        replay={"case": c, "meta": m, "direction": "dag"}))
+                    continue
                 viol.append(Violation(
                     key=f"{clause}:{m['a']}~{m['b']}:wb={m['wb']}",
                     detail=f"is_commuting({m['ops'][0] if direction == 'ab' else m['ops'][1]}, "
@@ -305,6 +465,19 @@ def run(tier, seed):
                 sum(1 for s_ in samples if s_["pauli_words"] == isw) < 2:
             samples.append({"a": m["ops"][0], "b": m["ops"][1], "is_commuting(a,b)": c["ab"], "is_commuting(b,a)": c["ba"],
                             "tlc_commute": bool(commute), "verdict": [cab, cba], "pauli_words": isw})
+    # non-vacuity of the history class: (gate type, wires) x (gate type, wires) pairs that recur inside ONE circuit with
+    # different parameters and whose exact commutation (TLC) differs between the occurrences
+    grp = {}
+    for k in range(npairs, nreal):
+        g = grp.setdefault((meta[k]["cid"], str(meta[k]["slot"])), [])
+        g.append((meta[k]["nodes"], verd[k][2], cases[k]["ab"]))
+    recurring = sum(1 for g in grp.values() if len(g) > 1)
+    flips = sum(1 for g in grp.values() if len({v for _, v, _ in g}) == 2)
+    # ... of which the commuting occurrence comes first (a stale "commute" would be unsound there)
+    flips_cf = sum(1 for g in grp.values() if any(v1 and not v2 and n1 < n2 for n1, v1, _ in g for n2, v2, _ in g))
+    dag_true = sum(1 for k in range(npairs, nreal) if cases[k]["ab"] == "T")
+    if dag_true == 0 or flips_cf == 0:
+        raise lib.MachineryError(f"vacuous DAG histories: {dag_true} unordered pairs, {flips_cf} parameter-dependent recurrences")
     nneg = 0
     for (idx, k, orig) in neg:
         cab = verd[idx][0]
@@ -322,6 +495,7 @@ def run(tier, seed):
     if n_true == 0 or n_words == 0 or n_commute == 0:
         raise lib.MachineryError("vacuous run: no True answers / no Pauli-word pairs / no commuting pairs")
     cov = {"states": dist, "transitions": gen, "traces_validated_against_impl": 2 * nreal, "evaluations": 2 * nreal,
+           "dag_constructions": dstat["circuits"],
            "distinct_nontrivial": len(nontriv),
            "rule": "non-trivial = distinct (shape a, shape b, overlap pattern) with at least one shared wire where the answer is "
                    "True or the exact matrices commute (disjoint placements are trivially commuting)",
@@ -329,12 +503,17 @@ def run(tier, seed):
            "pair_patterns_total": total_patterns, "pair_patterns_checked": len(set(map(str, chosen))), "rotation_special_case_patterns": len(rot),
            "answers_true": n_true, "pairs_commuting_exactly": n_commute, "pauli_word_pairs": n_words,
            "conservative_false": n_cons, "verdict_histogram": hist, "exception_classes": exc,
-           "negative_controls_rejected": nneg, "ring_level_M": M}
+           "negative_controls_rejected": nneg, "ring_level_M": M,
+           "dag": dict(dstat, records=nreal - npairs, answers_true=dag_true, recurring_type_wire_pairs=recurring,
+                       recurrences_with_parameter_dependent_commutation=flips, of_which_commuting_first=flips_cf)}
     return CheckResult(coverage=cov, violations=viol,
                        assumptions=["angles on the lattice k*pi/4 (0, pi, 2pi, 4pi over-weighted); one seeded angle assignment per "
                                     "(pair, overlap pattern)",
                                     "operator semantics = reference gate table Gates.tla (bound to PennyLane matrices by C02)",
-                                    "an exception is recorded (class histogram) and is not a verdict, except for two Pauli words"])
+                                    "an exception is recorded (class histogram) and is not a verdict, except for two Pauli words",
+                                    "DAG histories: circuits of 4-6 table gates on <= 3 wires; the DAG is read as a record of "
+                                    "is_commuting answers (unordered = True, direct edge = False); pairs ordered only transitively "
+                                    "carry no answer and are skipped"])
 
 
 def S_arity(m):
